@@ -11,7 +11,7 @@ def sh(cmd, cwd=None, timeout=1800):
     r = subprocess.run(cmd, shell=True, cwd=cwd, capture_output=True, text=True, timeout=timeout, env=dict(os.environ, CARGO_TARGET_DIR=TGT, CARGO_NET_OFFLINE="true"))
     return r.returncode, (r.stdout + r.stderr)
 subprocess.run("git -C /repo worktree remove --force %s 2>/dev/null; rm -rf %s" % (WT, WT), shell=True)
-rc, o = sh("git -C /repo worktree add --detach %s HEAD" % WT)
+rc, o = sh("git -C /repo worktree add --detach %s %s" % (WT, os.environ.get("BASE", "HEAD")))
 assert rc == 0, o
 res = {}
 if os.path.exists(OUT):
